@@ -29,7 +29,38 @@ ASSUMPTIONS = ['float column types (FLOAT4/FLOAT8) are excluded as the property 
                'nbytes(BITS) < 2^32 (SCALE/DER/bincode length fields) and < 2^64 (RLP length-of-length)']
 
 
+import collections
+ERR_KINDS = collections.Counter()   # error kinds / outcome classes hit by the IMPLEMENTATION in this run (evidence)
+
+
+def _tally(c, i):
+    t = c.split(' ')
+    if t[0] == 'exh':
+        for kv in i.split(' ')[1:]:
+            k, _, n = kv.partition('=')
+            if n.isdigit():
+                ERR_KINDS['exh:' + t[2] + ':' + k] += int(n)
+        return
+    op = t[0]
+    if op.startswith('d_') and i.startswith('err'):
+        ERR_KINDS[op + ':' + i] += 1
+    elif (op.startswith('d_') and i.startswith('ok')) or i == 'panic':
+        ERR_KINDS[op + ':' + i.split(' ')[0]] += 1
+    else:
+        for tok in i.split(' '):
+            if tok.startswith('err') or tok in ('PANIC', 'panic', 'PRIM-MISMATCH', 'DIFF', 'BITS-DIFF'):
+                ERR_KINDS[op + ':' + tok] += 1
+
+
+def extra_checks(tier, rng, findings):
+    """no extra checks; reports the tally of implementation outcome kinds collected during the run"""
+    kinds = dict(sorted(ERR_KINDS.items()))
+    distinct = sorted(set(k.split(':', 1)[1] for k in kinds if not k.startswith('exh:')))
+    return {'violations': [], 'known': {}, 'coverage': {'impl_outcome_kinds': kinds, 'distinct_error_kinds': distinct}}
+
+
 def nontrivial(c, i):
+    _tally(c, i)
     t = c.split(' ')
     return len(t) > 2 and t[2] not in ('0', '-')
 
